@@ -18,6 +18,7 @@ def handle (line : String) : String :=
     match hexArg f, parseClockSync c, k.toNat? with
     | some f, some c, some k => cmdTime f c k
     | _, _, _ => "bad-op"
+  | ["recover", h] => match hexArg h with | some b => cmdRecover b | none => "bad-op"
   | ["bread", s, f, d, h] =>
     match hexArg f, hexArg d, hexArg h with
     | some f, some d, some h => cmdBread (s == "1") f d h
